@@ -30,6 +30,8 @@ def words_of(tokens):
             out.append(str(t[1]))
         elif t[0] == "IntLit":
             out.append(str(t[1]))
+        elif t[0] == "StringLit":
+            out.append('"' + str(t[1]) + '"')
         elif t[0] in TOKEN_TEXT:
             out.append(TOKEN_TEXT[t[0]])
         elif t[0] == "FStringLit":
@@ -216,6 +218,8 @@ def mini_eval(n, env, toks):
         nm = n.name
         return env[nm] if nm in env else ERR
     if k == "lit":
+        if toks[n.tok][0] != "IntLit":
+            raise Unknown("a literal that is not an integer")
         return ("int", toks[n.tok][1])
     if k == "paren":
         return mini_eval(n.x, env, toks)
@@ -298,7 +302,7 @@ def render(n, toks, names, full=True):
     if k == "ident":
         return names[n.name]
     if k == "lit":
-        return str(toks[n.tok][1])
+        return str(toks[n.tok][1]) if toks[n.tok][0] == "IntLit" else '"' + str(toks[n.tok][1]) + '"' 
     if k == "paren":
         return "(" + render(n.x, toks, names, full) + ")"
     if k in ("not", "neg"):
@@ -432,7 +436,7 @@ def check_one(run, exe, src, tokens, rtoks, cols, want, idents, rec, words):
         return f"a well-formed expression was rejected: {first.get('debug')}"
     # ---- tree, spans, parameters
     names = {n: n for n in idents}
-    lits = {cols[i]: i for i, t in enumerate(tokens) if t[0] == "IntLit"}
+    lits = {cols[i]: i for i, t in enumerate(tokens) if t[0] in ("IntLit", "StringLit")}
     got = walk(first["ast"], "Expr", names, lits)
     faults = {"shape": [], "span": [], "argorder": []}
     compare(got, want, faults, cols=cols)
